@@ -22,3 +22,4 @@ Definition c11_eq_fudged := eq_fudged.
 Definition c11_hmac := hmac_of.
 Definition c11_default_fudge := default_fudge.
 Definition c11_unsigned_error_rcode := unsigned_error_rcode.
+Definition c11_unsigned_error_response := unsigned_error_response.
